@@ -32,12 +32,13 @@ import (
 )
 
 type resp struct {
-	Status  int
-	Body    []byte
-	StallMS int
-	Err     bool
-	Repeat  int
-	Loc     string
+	Status        int
+	Body          []byte
+	StallMS       int
+	Err           bool
+	Repeat        int
+	Loc           string
+	PartialStatus int
 }
 
 type kase struct {
@@ -68,6 +69,7 @@ func main() {
 	run.Assume("process liveness and bounded return are judged per case; a case still running D+10 s after it was logged is a hang", "coverage-guided fuzzing is not part of the quick tier")
 	run.Floor("handler_inputs", 100000)
 	run.Floor("hostile_polling_loops", 100)
+	run.Floor("hung_request_polling_cases", 4)
 	run.Floor("long_poll_growth_steps_followed", 150)
 	run.Floor("parser_inputs", 50000)
 	run.Floor("hostile_cases", 600)
@@ -350,6 +352,9 @@ func hostile(run *ev.Run, dir string) {
 		"500":      {Status: 500, Body: []byte("boom")},
 		"stall":    {Status: 200, StallMS: 300, Body: randBytes(r, 32)},
 	}
+	others["partial404_fullshort"] = resp{Status: 200, Body: randBytes(r, 64), PartialStatus: 404}
+	others["partial404_fullempty"] = resp{Status: 200, PartialStatus: 404}
+	others["partial500_fullhtml"] = resp{Status: 200, Body: []byte("<html><body>Service Temporarily Unavailable</body></html>"), PartialStatus: 500}
 	otherNames := []string{"404", "random", "zerotile", "empty", "5MiB", "500", "stall"}
 	// well-formed proof JSON for the Rekor feeder (its other requests are proof requests)
 	hx := func(n int) string { return fmt.Sprintf("%x", randBytes(r, n)) }
@@ -385,6 +390,8 @@ func hostile(run *ev.Run, dir string) {
 		}
 		var firsts []first
 		firsts = append(firsts, first{"valid", resp{Status: 200, Body: wrap(sign(9, l.Root(0, 9)))}, true})
+		// a larger honest checkpoint: the growth from 5 needs a partial tile wider than a few hashes
+		firsts = append(firsts, first{"valid_size_300", resp{Status: 200, Body: wrap(sign(300, l.Root(0, 300)))}, true})
 		for _, sz := range hostileSizes {
 			for _, rl := range rootLens {
 				firsts = append(firsts, first{fmt.Sprintf("signed_size=%d_rootlen=%d", sz, rl), resp{Status: 200, Body: wrap(sign(sz, randBytes(r, rl)))}, true})
@@ -411,6 +418,12 @@ func hostile(run *ev.Run, dir string) {
 					ons = []string{otherNames[(len(cases)+fi)%len(otherNames)]}
 				} else if !run.Thorough() {
 					ons = []string{"404", "random", "zerotile"}
+				}
+				if f.name == "valid_size_300" {
+					if holds == nil {
+						continue
+					}
+					ons = []string{"partial404_fullshort", "partial404_fullempty", "partial500_fullhtml", "404"}
 				}
 				if feeder == "rekor" && f.slow && holds != nil {
 					ons = append(append([]string{}, ons...), "json_proof", "json_empty_proof", "json_odd_proof")
@@ -454,6 +467,18 @@ func hostile(run *ev.Run, dir string) {
 		if cases[i].Kind != "distributor" && i%6 == 3 {
 			cases[i].PollMS = 180
 			cases[i].Desc += "/polling"
+		}
+	}
+	// a log that accepts a proof/tile request and never answers: the cycle's own deadline must end the request,
+	// so that the polling loop goes on to its next cycles (counted as checkpoint fetches)
+	for _, c0 := range append([]kase{}, cases...) {
+		if c0.Kind != "distributor" && c0.PollMS == 0 && c0.Holds != nil && strings.Contains(c0.Desc, "/first=valid/") && strings.Contains(c0.Desc, "/other=404/") {
+			c := c0
+			c.ID = len(cases)
+			c.Other = resp{Status: 200, StallMS: 3600000}
+			c.PollMS, c.DeadlineMS = 180, 1500
+			c.Desc = strings.Replace(c.Desc, "/other=404/", "/other=hang/", 1) + "/polling"
+			cases = append(cases, c)
 		}
 	}
 	// long process lifetimes made of VALID responses only: an honest, growing log followed for 90-150 growth steps
@@ -566,6 +591,21 @@ func runBatch(run *ev.Run, dir string, w int, cases []kase) {
 				run.Add("long_poll_growth_steps_followed", int64(steps))
 				if steps <= c.LongPoll || ws != ls {
 					run.Violate("long_polling_feeder_fell_behind;"+c.Kind, fmt.Sprintf("case %q: an honest log grew in %d steps to size %d; the polling feeder left the witness at size %d (%s)", c.Desc, steps, ls, ws, res[:min(len(res), 200)]), int64(c.ID), map[string]any{"result": res})
+				}
+			}
+			if c.PollMS > 0 && strings.Contains(c.Desc, "/other=hang/") {
+				cycles := -1
+				if i := strings.Index(res, "cycles="); i >= 0 {
+					fmt.Sscanf(res[i:], "cycles=%d", &cycles)
+				}
+				run.Count("hung_request_polling_cases")
+				run.Extra("cycles_with_hung_requests:"+c.Kind, cycles)
+				// 1500 ms at a 180 ms interval is 8 ticks (7-9 cycles observed on the pinned tree for every feeder);
+				// a loop whose first cycle never ends shows exactly one
+				// (not judged for sumdb: its client takes no context at all, so a hung SumDB request is bounded by the
+				// operator's http.Client timeout only - observation O3 in DESIGN.md; the count is still recorded)
+				if cycles >= 0 && cycles < 3 && c.Kind != "sumdb" {
+					run.Violate("hung_request_stops_the_polling_loop;"+c.Kind, fmt.Sprintf("case %q: the log accepted a request and never answered; in 1500 ms (interval 180 ms) the polling feeder started %d cycle(s): its cycle deadline does not end the request", c.Desc, cycles), int64(c.ID), map[string]any{"case": c.Desc, "result": res})
 				}
 			}
 			if c.PollMS > 0 {
